@@ -29,6 +29,17 @@ func (mc *Machine) installTail(t *rapid.T, plan map[string]int, cfg TxnCfg, onTx
 		if point == "snapshot:pre-chunk" {
 			key = fmt.Sprintf("%s:%d", point, block)
 		}
+		if mc.OverlapAt != "" && key == mc.OverlapAt {
+			// a second Snapshot call that overlaps the one in progress (issued from the snapshotting
+			// goroutine itself at a yield point, where no lock is held)
+			mc.OverlapAt = ""
+			busy = true
+			mc.OverlapRan = true
+			mc.OverlapBuf.Reset()
+			mc.OverlapRows = len(mc.M.Rows)
+			mc.OverlapErr = mc.C.Snapshot(&mc.OverlapBuf)
+			busy = false
+		}
 		n := plan[key]
 		if n == 0 {
 			return
@@ -167,10 +178,32 @@ func TestC14(t *testing.T) {
 		for pi := 0; pi < limit; pi++ {
 			fw := plans[order[pi]]
 			planDesc := fw.String()
+			mc.OverlapAt, mc.OverlapRan = "", false
+			if rapid.IntRange(0, 3).Draw(t, "overlapping-snapshot") == 0 {
+				mc.OverlapAt = rapid.SampledFrom([]string{"snapshot:recorder-open", "snapshot:pre-chunk:0", "snapshot:pre-chunk:1", "snapshot:pre-close", "snapshot:pre-copy"}).Draw(t, "overlap-at")
+				planDesc += " + a second Snapshot call at " + mc.OverlapAt
+			}
 			remove := mc.installTail(t, mkPlan(t), cfg, nil)
 			err := mc.C.Snapshot(fw)
 			remove()
 			what := fmt.Sprintf("Snapshot with plan %q (%d calls, %d bytes accepted, %d failed)", planDesc, fw.Calls, fw.Bytes, fw.Failed)
+			if mc.OverlapRan {
+				// refused ("another one might be in progress") or successful - either way it must not leave
+				// anything behind (leakCheck below), and a successful one must be restorable
+				mc.flag("overlapping-snapshot")
+				if mc.OverlapErr == nil {
+					rc := newCollectionLive(sch, mc.M.ColLive, column.Options{})
+					rerr := rc.Restore(bytes.NewReader(mc.OverlapBuf.Bytes()))
+					cnt := rc.Count()
+					rc.Close()
+					if rerr != nil {
+						mc.fail(t, "%s: the overlapping Snapshot call returned nil but its output does not restore: %v", what, rerr)
+					}
+					if cnt != mc.OverlapRows {
+						mc.fail(t, "%s: the overlapping Snapshot call returned nil; restored it holds %d rows, the collection had %d", what, cnt, mc.OverlapRows)
+					}
+				}
+			}
 			if fw.Failed > 0 && err == nil {
 				mc.fail(t, "%s: the writer failed but Snapshot returned nil", what)
 			}
